@@ -368,6 +368,10 @@ pub struct AddrParseError { _p: () }
 pub trait FromStrLike: Sized { type Err; spec fn of_str(s: &Str) -> Option<Self>; }
 impl FromStrLike for IpAddr { type Err = AddrParseError; open spec fn of_str(s: &Str) -> Option<IpAddr> { s.ip_literal() } }
 impl Str {
+    /// str::trim_end_matches(char): SOME prefix of the string (how much is trimmed is not modelled)
+    #[verifier::external_body]
+    pub fn trim_end_matches(&self, c: char) -> (r: &Str)
+    { unimplemented!() }
     pub uninterp spec fn ip_literal(&self) -> Option<IpAddr>;
     #[verifier::external_body]
     pub fn parse<F: FromStrLike>(&self) -> (r: Result<F, F::Err>)
